@@ -20,7 +20,7 @@
 //@heap Heap
 //@tp T
 //@celltp
-//@nogate sink source_talkback
+//@nogate sink source_talkback source
 
 pub struct Gs {
     pub me: int,
@@ -288,7 +288,7 @@ pub fn merge__source_talkback_T<T>(h: &mut Heap, g: &mut Ghost<G<T>>, c: &Cap, i
         guar(final(g)@.snap, final(g)@.gsnap, *final(h), final(g)@.gs), /* @C18 a step of this thread only moves the counters forward and only touches its own member's entries and tickets */
         final(g)@.gs.my_greet == 0, /* @C18 the thread that holds the greeting ticket greets the sink before it returns */
         final(g)@.gs.my_end == 0, /* @C18 the thread that holds the completion ticket completes the sink before it returns */
-        message is Handshake ==> final(g)@.gs.started[i as int], /* @C18 a member that greeted is counted */
+        message is Handshake ==> final(g)@.gs.started[i as int] || final(h).ended, /* @C18 a member that greeted is counted, unless the output was already over (a member failed) */
         message is Terminate ==> final(g)@.gs.counted[i as int], /* @C18 a member that completed is counted */
         message is Data ==> final(g)@.my_sent =~= seq![message->Data_0], /* @C18 merge delivers every datum exactly once */
         !(message is Data) ==> final(g)@.my_sent.len() == 0, /* @C18 merge delivers every datum exactly once */
